@@ -582,10 +582,29 @@ func runPool(mode string) sim.RigFunc {
 		}
 		var b strings.Builder
 		b.WriteString("http://p.test:0 {\n\tbind 127.0.0.1\n\tsimnet v0\n\tsimproxy /")
-		for i := 0; i < r.n; i++ {
+		// backends are named on the directive's line, or by upstream lines anywhere in its block: the
+		// block's settings hold for all of them, wherever they are written
+		shape := st.Draw(5)
+		upLines := func(from int) {
+			for i := from; i < r.n; i++ {
+				fmt.Fprintf(&b, "\t\tupstream 10.9.0.%d:80\n", i+1)
+			}
+		}
+		inline := r.n
+		switch shape {
+		case 1, 2:
+			inline = 0
+		case 3:
+			inline = 1
+		}
+		for i := 0; i < inline; i++ {
 			fmt.Fprintf(&b, " 10.9.0.%d:80", i+1)
 		}
 		b.WriteString(" {\n")
+		if shape == 1 {
+			upLines(0)
+		}
+		c.Params["backends_written"] = []string{"inline", "upstream-lines-first", "upstream-lines-last", "one-inline-rest-in-the-middle", "inline"}[shape]
 		if r.policy == "header" {
 			b.WriteString("\t\tpolicy simwrap_header X-Key\n")
 		} else {
@@ -595,6 +614,9 @@ func runPool(mode string) sim.RigFunc {
 			fmt.Fprintf(&b, "\t\tmax_conns %d\n", r.maxConns)
 		}
 		fmt.Fprintf(&b, "\t\tmax_fails %d\n", r.maxFails)
+		if shape == 3 {
+			upLines(1)
+		}
 		if r.failTimeout > 0 {
 			fmt.Fprintf(&b, "\t\tfail_timeout %s\n", r.failTimeout)
 		}
@@ -608,7 +630,11 @@ func runPool(mode string) sim.RigFunc {
 			// the same instant fire in no defined order)
 			b.WriteString("\t\thealth_check /hc\n\t\thealth_check_interval 333ms\n\t\thealth_check_timeout 1s\n")
 		}
-		fmt.Fprintf(&b, "\t\ttry_interval %s\n\t}\n}\n", r.tryInterval)
+		fmt.Fprintf(&b, "\t\ttry_interval %s\n", r.tryInterval)
+		if shape == 2 {
+			upLines(0)
+		}
+		b.WriteString("\t}\n}\n")
 		text := b.String()
 		c.Params["real_health_checker"] = r.realHC
 		c.Params["pool"] = r.n
